@@ -10,7 +10,8 @@
    All theorems quantify over every environment E with distinct module
    identities (wf_env) -- any import graph, diamonds and cycles included --
    and every action sequence; there is no bound anywhere. *)
-From verif Require Import lib.Base model.C22 proofs.C22_proofs proofs.C22_inv proofs.C22_trace.
+From verif Require Import lib.Base model.C22 proofs.C22_proofs proofs.C22_inv proofs.C22_trace
+  proofs.C22_paths proofs.C22_ended.
 
 (* Between two starts of the body of one module the earlier evaluation has
    failed: a module is evaluated at most once unless it failed, however many
@@ -22,6 +23,40 @@ Theorem C22_evaluated_at_most_once_unless_failed : forall E acts,
     In (EFailed m n') mid.
 Proof. exact evaluated_at_most_once_unless_failed. Qed.
 Print Assumptions C22_evaluated_at_most_once_unless_failed.
+
+(* A module whose body ran to its end is never evaluated again, for the life
+   of the evaler (it stays cached: only a failing evaluation deletes, and only
+   its own key). *)
+Theorem C22_completed_never_reevaluated : forall E acts,
+  wf_env E ->
+  forall pre m n post,
+    trace_of E acts = pre ++ EEnd m n :: post -> forall n', ~ In (EStart m n') post.
+Proof. exact completed_never_reevaluated. Qed.
+Print Assumptions C22_completed_never_reevaluated.
+
+(* The cache key is canonical: spellings that differ by "." elements, doubled
+   slashes or "name/.." detours are cleaned to the same key; a lib-dir import
+   [name] and a relative import [./name] from that directory share the key. *)
+Theorem C22_key_dot_element_ignored : forall d x,
+  clean_abs (d ++ SL :: DOT :: SL :: x) = clean_abs (d ++ SL :: x).
+Proof. exact dot_element_ignored. Qed.
+Print Assumptions C22_key_dot_element_ignored.
+
+Theorem C22_key_double_slash_ignored : forall d x,
+  clean_abs (d ++ SL :: SL :: x) = clean_abs (d ++ SL :: x).
+Proof. exact double_slash_ignored. Qed.
+Print Assumptions C22_key_double_slash_ignored.
+
+Theorem C22_key_dotdot_cancels : forall d name x,
+  proper name ->
+  clean_abs (d ++ SL :: name ++ SL :: DOT :: DOT :: SL :: x) = clean_abs (d ++ SL :: x).
+Proof. exact dotdot_cancels. Qed.
+Print Assumptions C22_key_dotdot_cancels.
+
+Theorem C22_lib_and_relative_same_key : forall (cx : ctx) d name,
+  name <> [] -> join_path d name = rel_path cx (Some d) (DOT :: SL :: name).
+Proof. exact lib_and_relative_same_key. Qed.
+Print Assumptions C22_lib_and_relative_same_key.
 
 (* A module whose evaluation fails is not remembered: after the failure no
    import returns the failed namespace ... *)
